@@ -128,7 +128,8 @@ pub fn spec_c10() -> PropSpec {
     pf.kinds = [8, 1, 1, 1, 2, 0, 0, 0, 0, 0];
     // read, call, if, newent, entfield, callonent, callonentspec, specify, intern, ...
     pf.ops = [4, 6, 5, 7, 2, 1, 7, 7, 0, 0, 0, 0, 0];
-    pf.special_ops = [4, 3, 2, 0, 4, 0, 0, 0, 0, 0, 0, 0, 0];
+    // `on_ent` bodies occasionally try to specify their argument (created by the still executing caller)
+    pf.special_ops = [4, 3, 2, 0, 4, 0, 0, 1, 0, 0, 0, 0, 0];
     pf.specify_any_pct = 12;
     pf.max_slots = 2;
     pf.max_nodes = 5;
@@ -219,7 +220,8 @@ pub fn spec_c11() -> PropSpec {
     let mut pf = Profile::base();
     pf.durs = [5, 1, 1, 1];
     pf.kinds = [6, 1, 1, 1, 2, 1, 0, 0, 0, 0];
-    pf.ops = [5, 8, 4, 1, 1, 1, 0, 0, 1, 1, 0, 0, 7];
+    // a little specify: its output edges force the wide edge layout, which accumulated_by walks backwards
+    pf.ops = [5, 8, 4, 2, 1, 1, 1, 2, 1, 1, 0, 0, 7];
     pf.special_ops = [4, 3, 2, 0, 4, 0, 0, 0, 0, 4, 0, 0, 3];
     pf.max_cells = 0;
     pf.steps = [4, 8, 1, 0, 9, 0, 0, 0, 0];
